@@ -1,8 +1,11 @@
 /* C12: secp256k1_musig_nonce_process (BIP-327 GetSessionValues as far as the session object goes), real code, every
- * pointer NULL or an object with arbitrary bytes.
+ * pointer NULL or an object with arbitrary bytes.  The aggnonce, keyagg cache, adaptor key and the resulting session are OPAQUE:
+ * they are decoded with the TU's own *_load functions and every clause is over decoded fields and oracle operand values (audit
+ * #7, #16, #17); nothing is demanded about the session object when the call fails.
  * Oracles with ghost logs: secp256k1_ecmult (b*R2), secp256k1_gej_add_ge_var (adaptor addition, R1 + b*R2),
  * secp256k1_ge_set_gej, secp256k1_scalar_mul (e*tacc).  Replaced by proved summaries: sha256_write/_finalize (stream
- * contracts; here they expose the nonce-coefficient hash), secp256k1_schnorrsig_challenge (C02.challenge; argument log).
+ * contracts; here they expose the nonce-coefficient hash - kept at stream level for cost, audit #31), secp256k1_schnorrsig_challenge
+ * (C02 units; content of all three inputs logged).
  *   b       = int(TaggedHash("MuSig/noncecoef", cbytes_ext(R1') || cbytes_ext(R2) || x(Q) || msg)) mod n, R1' = R1 [+ adaptor]
  *   R       = R1' + b*R2 ; R = infinity => G ; session stores x(R) and the parity of y(R)
  *   e       = challenge(x(R), msg, 32, x(Q)) ; s_part = 0 if tacc = 0, else e*tacc negated iff y(Q) is odd
@@ -11,125 +14,118 @@
 #define LOG_GE_SET_GEJ
 #define LOG_SCALAR_MUL
 #define LOG_GEJ_ADD_GE
+#define LOG_CHALLENGE32
 #define C02_HASHLOG2
-#define C02_CHALLENGE_CONTRACT
+#include "pre.h"
+#define secp256k1_schnorrsig_challenge verif_unused_challenge_decl   /* assumed_C02.h's own summary of the challenge is not used here */
 #include "assumed_C02.h"
+#undef secp256k1_schnorrsig_challenge
 #include "assumed_musig.h"
 #include "src/secp256k1.c"
 #include "post.h"
+#include "decode.h"
 
 size_t g_k;
 #ifndef VERIF_NATIVE
-static wide le256(const unsigned char *b) { wide v = 0; int i; for (i = 31; i >= 0; i--) v = (v << 8) | W(b[i]); return v; }
-static wide modp(wide v) { wide p = P_(); int i; for (i = 0; i < 2; i++) if (v >= p) v -= p; return v; }   /* operands < 3p: storage bytes (< 2^256) or magnitude-1 field elements */
-static void be_bytes(unsigned char *out, wide v) { int i; for (i = 0; i < 32; i++) out[i] = (unsigned char)(v >> (8 * (31 - i))); }   /* constant shifts only */
 static wide GX(void) { return (W(0x79BE667EF9DCBBACULL) << 192) | (W(0x55A06295CE870B07ULL) << 128) | (W(0x029BFCDB2DCE28D9ULL) << 64) | W(0x59F2815B16F81798ULL); }
+static int same_ge(const secp256k1_ge *a, const secp256k1_ge *b) { return a->infinity == b->infinity && (a->infinity || (cval4(&a->x) == cval4(&b->x) && cval4(&a->y) == cval4(&b->y))); }
+static int gej_is_ge(const secp256k1_gej *a, const secp256k1_ge *b) { return a->infinity == b->infinity && (a->infinity || (cval4(&a->x) == cval4(&b->x) && cval4(&a->y) == cval4(&b->y) && cval4(&a->z) == 1)); }
 #endif
-static int all_zero(const unsigned char *b, size_t n) { size_t i; int z = 1; for (i = 0; i < n; i++) z &= (b[i] == 0); return z; }
 
 void h_nonce_process(void) {
     secp256k1_context ctx;
     INPUT(secp256k1_musig_session, sess); INPUT(secp256k1_musig_aggnonce, an); INPUT(secp256k1_musig_keyagg_cache, cache); INPUT(secp256k1_pubkey, adaptor);
     INPUT_ARR(unsigned char, msg, 32);
     INPUT(_Bool, use_sess); INPUT(_Bool, use_an); INPUT(_Bool, use_msg); INPUT(_Bool, use_cache); INPUT(_Bool, use_adaptor); INPUT(size_t, k); INPUT(uint64_t, wpos);
-    secp256k1_musig_session sess0 = sess;
-    int ret, an_ok, cache_ok;
+    secp256k1_ge R[2], A; secp256k1_keyagg_cache_internal ci; secp256k1_musig_session_internal so;
+    int ret, an_ok, cache_ok, ad_ok, so_ok;
+    dec_init(); an_ok = dec_aggnonce(R, &an); cache_ok = dec_cache(&ci, &cache); ad_ok = dec_pubkey(&A, &adaptor);
     verif_ctx_init(&ctx); ctx.hash_ctx.fn_sha256_compression = secp256k1_sha256_transform;
     g_k = k; __CPROVER_assume(g_k < 32);
-    g_ecmult_n = 0; g_sg_n = 0; g_mul_n = 0; g_age_n = 0; HASHLOG_RESET(); g_we = 0; g_we2 = 0; g_wpos = wpos; CHALLENGE_RESET(0);
-    an_ok = an.data[0] == 0xa8 && an.data[1] == 0xb7 && an.data[2] == 0xe4 && an.data[3] == 0x67;
-    cache_ok = cache.data[0] == 0xf4 && cache.data[1] == 0xad && cache.data[2] == 0xbb && cache.data[3] == 0xdf;
+    g_ecmult_n = 0; g_sg_n = 0; g_mul_n = 0; g_age_n = 0; HASHLOG_RESET(); g_we = 0; g_we2 = 0; g_wpos = wpos; g_ch_n = 0; g_ch_i = k;
 
     ret = secp256k1_musig_nonce_process(&ctx, use_sess ? &sess : NULL, use_an ? &an : NULL, use_msg ? msg : NULL, use_cache ? &cache : NULL, use_adaptor ? &adaptor : NULL);
 
     __CPROVER_assert(ret == 0 || ret == 1, "C12 nonce_process: returns 0 or 1");
     __CPROVER_assert(g_error == 0, "C12 nonce_process: error callback never invoked");
-    if (!use_sess || !use_an || !use_msg || !use_cache || !an_ok || !cache_ok) {
-        __CPROVER_assert(ret == 0 && g_illegal == 1 && g_ecmult_n == 0 && g_fin_n == 0, "C12 nonce_process: NULL argument or object without its magic is illegal; nothing is computed");
-        if (use_sess) __CPROVER_assert(sess.data[g_k] == sess0.data[g_k] && sess.data[100 + g_k] == sess0.data[100 + g_k], "C12 nonce_process: session untouched on illegal call");
+    if (!use_sess || !use_an || !use_msg || !use_cache || !an_ok || !cache_ok || (use_adaptor && !ad_ok)) {
+        __CPROVER_assert(ret == 0 && g_illegal == 1, "C12 nonce_process: NULL argument or an uninitialised/invalid object is illegal");
         if (use_sess && use_an && use_msg && use_cache && !an_ok) REACH("nonce_process aggnonce without magic");
+        if (use_sess && use_an && use_msg && use_cache && an_ok && cache_ok && use_adaptor) REACH("nonce_process invalid adaptor");
         return;
     }
+    so_ok = dec_session(&so, &sess);
 #ifndef VERIF_NATIVE
     {
-        wide p = P_(), n = N_();
-        int z1 = all_zero(&an.data[4], 64), z2 = all_zero(&an.data[68], 64);            /* components at infinity */
-        wide R1x = modp(le256(&an.data[4])), R1y = modp(le256(&an.data[36])), R2x = modp(le256(&an.data[68])), R2y = modp(le256(&an.data[100]));
-        wide Qx = le256(&cache.data[4]), Qy = le256(&cache.data[36]), tacc = be256(&cache.data[165]);
-        wide Ax = le256(&adaptor.data[0]);
-        int canonQ = Qx < p && Qy < p, slot_fin = use_adaptor ? 1 : 0;
-        wide F1x, F1y; int F1inf;                                                        /* first component as hashed and as used in R1' + b*R2 */
-        wide finx; int finpar, fininf;
-        unsigned char f1xb[32], r2xb[32], qxb[32], finxb[32], gxb[32];
-        if (tacc >= n) tacc -= n;
-        if (use_adaptor && Ax == 0) {   /* zero-x (e.g. all-zero) public key object */
-            __CPROVER_assert(ret == 0 && g_illegal == 1 && g_ecmult_n == 0, "C12 nonce_process: invalid adaptor object is illegal; nothing is computed");
-            REACH("nonce_process invalid adaptor");
-            return;
-        }
-        __CPROVER_assert(ret == 1 && g_illegal == 0, "C12 nonce_process: succeeds for every initialised cache, aggnonce and message");
+        wide p = P_(), n = N_(), Qx = fval(&ci.pk.x), Qy = fval(&ci.pk.y), tacc = sval(&ci.tweak);
+        int canonQ = Qx < p && Qy < p, last = use_adaptor ? 1 : 0;   /* index of the addition R1' + b*R2 among the logged additions */
+        secp256k1_ge F1;                                              /* first component as hashed and as used in R1' + b*R2 */
+        wide finx, bval; int finpar, fininf;
+        unsigned char f1xb[32], r2xb[32], qxb[32], finxb[32];
+        __CPROVER_assert(ret == 1 && g_illegal == 0 && so_ok, "C12 nonce_process: succeeds for every initialised cache, aggnonce and message, and produces an initialised session");
         /* --- adaptor goes to the first component only --- */
         if (use_adaptor) {
-            __CPROVER_assert(g_age_n == 2 && g_sg_n == 2, "C12 nonce_process: with adaptor: two additions, two conversions");
-            __CPROVER_assert(g_age_a0.infinity == z1 && (z1 || (modp(fval(&g_age_a0.x)) == R1x && modp(fval(&g_age_a0.y)) == R1y && fval(&g_age_a0.z) == 1)), "C12 nonce_process: the adaptor is added to the first aggregate-nonce component");
-            __CPROVER_assert(!g_age_b0.infinity && modp(fval(&g_age_b0.x)) == modp(Ax) && modp(fval(&g_age_b0.y)) == modp(le256(&adaptor.data[32])), "C12 nonce_process: the point added is the adaptor public key");
+            __CPROVER_assert(g_age_n >= 2 && g_sg_n >= 1, "C12 nonce_process: with adaptor: an addition for the adaptor and one for the final nonce");
+            __CPROVER_assert((gej_is_ge(&g_age_a0, &R[0]) && same_ge(&g_age_b0, &A)) , "C12 nonce_process: the adaptor public key is added to the FIRST aggregate-nonce component");
             __CPROVER_assert(GEJ_EQ(g_sg_a0, g_age_r0), "C12 nonce_process: the new first component is the affine form of R1 + adaptor");
-            F1inf = g_sg_r0.infinity; F1x = modp(fval(&g_sg_r0.x)); F1y = modp(fval(&g_sg_r0.y));
+            F1 = g_sg_r0;
         } else {
-            __CPROVER_assert(g_age_n == 1 && g_sg_n == 1, "C12 nonce_process: without adaptor: one addition, one conversion");
-            F1inf = z1; F1x = R1x; F1y = R1y;
+            __CPROVER_assert(g_age_n >= 1 && g_sg_n >= 1, "C12 nonce_process: without adaptor: one addition, one conversion");
+            F1 = R[0];
         }
         /* --- nonce coefficient hash --- */
         __CPROVER_assert(g_fin_n == 1 && g_w_started && g_w_b0 == 64 && g_w_s0 == 0x2c7d5a45ul && g_w_s7 == 0xde7a2500ul, "C12 nonce_process: one hash, from the MuSig/noncecoef midstate with 64 bytes absorbed");
         __CPROVER_assert(g_w_fin && g_w_end == 64 + 33 + 33 + 32 + 32, "C12 nonce_process: coefficient hash absorbs 130 bytes");
-        be_bytes(f1xb, F1x); be_bytes(r2xb, R2x); be_bytes(qxb, Qx); be_bytes(gxb, GX());
+        be_bytes32(f1xb, cval4(&F1.x)); be_bytes32(r2xb, cval(&R[1].x)); be_bytes32(qxb, Qx);
         if (g_wpos >= 64 && g_wpos < 64 + 130) {
             uint64_t q = g_wpos - 64; unsigned char want;
             __CPROVER_assert(g_w_hit, "C12 nonce_process: every position of the coefficient hash is written");
-            if (q == 0) want = F1inf ? 0 : (2 | (unsigned char)(F1y & 1));
-            else if (q < 33) want = F1inf ? 0 : f1xb[q - 1];
-            else if (q == 33) want = z2 ? 0 : (2 | (unsigned char)(R2y & 1));
-            else if (q < 66) want = z2 ? 0 : r2xb[q - 34];
+            if (q == 0) want = F1.infinity ? 0 : (2 | (unsigned char)(cval4(&F1.y) & 1));
+            else if (q < 33) want = F1.infinity ? 0 : f1xb[q - 1];
+            else if (q == 33) want = R[1].infinity ? 0 : (2 | (unsigned char)(cval(&R[1].y) & 1));
+            else if (q < 66) want = R[1].infinity ? 0 : r2xb[q - 34];
             else if (q < 98) want = qxb[q - 66];
             else want = msg[q - 98];
             if (q >= 66 && q < 98 && !canonQ) want = g_w_byte;   /* nothing claimed for a cache with non-canonical coordinates */
             __CPROVER_assert(g_w_byte == want, "C12 nonce_process: coefficient hash input = cbytes_ext(R1') || cbytes_ext(R2) || x(Q) || msg (infinity = 33 zero bytes)");
-            if (q == 0 && F1inf && use_adaptor) REACH("nonce_process first component cancels to infinity after adaptor");
-            if (q == 40 && z2) REACH("nonce_process second component at infinity");
+            if (q == 0 && F1.infinity && use_adaptor) REACH("nonce_process first component cancels to infinity after adaptor");
+            if (q == 40 && R[1].infinity) REACH("nonce_process second component at infinity");
         }
         /* --- b*R2 and R1' + b*R2 --- */
-        { wide d = be256(g_w_dig); __CPROVER_assert(g_ecmult_n == 1 && g_ecmult_has_na0 && !g_ecmult_has_ng0 && sval(&g_ecmult_na0) == (d >= n ? d - n : d), "C12 nonce_process: multiplies by b = coefficient digest mod n, no generator term");
-          __CPROVER_assert(be256(&sess.data[37]) == (d >= n ? d - n : d), "C12 nonce_process: session stores b"); }
-        __CPROVER_assert(g_ecmult_a0.infinity == z2 && (z2 || (modp(fval(&g_ecmult_a0.x)) == R2x && modp(fval(&g_ecmult_a0.y)) == R2y && fval(&g_ecmult_a0.z) == 1)), "C12 nonce_process: the point multiplied is the second component, unchanged (adaptor or not)");
-        if (slot_fin == 0) {
-            __CPROVER_assert(GEJ_EQ(g_age_a0, g_ecmult_r0) && g_age_b0.infinity == F1inf && (F1inf || (modp(fval(&g_age_b0.x)) == F1x && modp(fval(&g_age_b0.y)) == F1y)), "C12 nonce_process: final nonce = R1 + b*R2");
+        { wide d = be256(g_w_dig); bval = d >= n ? d - n : d; }
+        __CPROVER_assert(g_ecmult_n >= 1 && g_ecmult_has_na0 && sval(&g_ecmult_na0) == bval && (!g_ecmult_has_ng0 || sval(&g_ecmult_ng0) == 0), "C12 nonce_process: multiplies by b = coefficient digest mod n, no generator term");
+        __CPROVER_assert(sval(&so.noncecoef) == bval, "C12 nonce_process: session stores b");
+        __CPROVER_assert(gej_is_ge(&g_ecmult_a0, &R[1]), "C12 nonce_process: the point multiplied is the second component, unchanged (adaptor or not)");
+        if (last == 0) {
+            __CPROVER_assert((GEJ_EQ(g_age_a0, g_ecmult_r0) && same_ge(&g_age_b0, &F1)), "C12 nonce_process: final nonce = R1 + b*R2");
             __CPROVER_assert(GEJ_EQ(g_sg_a0, g_age_r0), "C12 nonce_process: final nonce converted to affine");
-            fininf = g_sg_r0.infinity; finx = modp(fval(&g_sg_r0.x)); finpar = (int)(modp(fval(&g_sg_r0.y)) & 1);
+            fininf = g_sg_r0.infinity; finx = cval4(&g_sg_r0.x); finpar = (int)(cval4(&g_sg_r0.y) & 1);
             if (fininf) { finx = GX(); finpar = 0; }
-            __CPROVER_assert(sess.data[4] == finpar, "C12 nonce_process: session parity = odd(y(R)), or that of G when R is infinity");
-            be_bytes(finxb, finx);
-            __CPROVER_assert(sess.data[5 + g_k] == finxb[g_k], "C12 nonce_process: session nonce = x(R), or x(G) when R is infinity");
+            be_bytes32(finxb, finx);
+            __CPROVER_assert(so.fin_nonce_parity == finpar, "C12 nonce_process: session parity = odd(y(R)), or that of G when R is infinity");
+            __CPROVER_assert(so.fin_nonce[g_k] == finxb[g_k], "C12 nonce_process: session nonce = x(R), or x(G) when R is infinity");
             if (fininf) REACH("nonce_process final nonce at infinity replaced by G");
         } else {
-            __CPROVER_assert(GEJ_EQ(g_age_a1, g_ecmult_r0) && g_age_b1.infinity == F1inf && (F1inf || (modp(fval(&g_age_b1.x)) == F1x && modp(fval(&g_age_b1.y)) == F1y)), "C12 nonce_process: final nonce = (R1 + adaptor) + b*R2");
-            if (g_age_r1.infinity) __CPROVER_assert(sess.data[4] == 0 && sess.data[5 + g_k] == gxb[g_k], "C12 nonce_process: with adaptor: final nonce at infinity replaced by G");
+            __CPROVER_assert((GEJ_EQ(g_age_a1, g_ecmult_r0) && same_ge(&g_age_b1, &F1)), "C12 nonce_process: final nonce = (R1 + adaptor) + b*R2");
+            be_bytes32(finxb, GX());
+            if (g_age_r1.infinity) __CPROVER_assert(so.fin_nonce_parity == 0 && so.fin_nonce[g_k] == finxb[g_k], "C12 nonce_process: with adaptor: final nonce at infinity replaced by G");
             if (g_age_r1.infinity) REACH("nonce_process with adaptor, final nonce at infinity");
         }
-        __CPROVER_assert(sess.data[0] == 0x9d && sess.data[1] == 0xed && sess.data[2] == 0xe9 && sess.data[3] == 0x17 && sess.data[4] <= 1, "C12 nonce_process: session carries its magic and a one-bit parity");
+        __CPROVER_assert(so.fin_nonce_parity == 0 || so.fin_nonce_parity == 1, "C12 nonce_process: session parity is one bit");
         /* --- challenge and tweak term --- */
-        __CPROVER_assert(g_chal_n == 1 && g_chal_hit && g_chal_msgp == msg && g_chal_msglen == 32, "C12 nonce_process: one challenge, over the 32-byte message");
-        __CPROVER_assert(g_chal_r32[g_k] == sess.data[5 + g_k], "C12 nonce_process: challenge is over the final nonce stored in the session");
-        if (canonQ) __CPROVER_assert(g_chal_pk[g_k] == qxb[g_k], "C12 nonce_process: challenge is over x(Q)");
-        __CPROVER_assert(be256(&sess.data[69]) == sval(&g_chal_e), "C12 nonce_process: session stores the challenge");
-        if (tacc == 0) __CPROVER_assert(g_mul_n == 0 && be256(&sess.data[101]) == 0, "C12 nonce_process: no tweak => s_part = 0");
+        __CPROVER_assert(g_ch_n >= 1 && g_ch_msglen == 32 && g_ch_msg_b == msg[g_k], "C12 nonce_process: challenge over the caller's 32-byte message");
+        __CPROVER_assert(g_ch_r_b == so.fin_nonce[g_k], "C12 nonce_process: challenge is over the final nonce stored in the session");
+        if (canonQ) __CPROVER_assert(g_ch_pk_b == qxb[g_k], "C12 nonce_process: challenge is over x(Q)");
+        __CPROVER_assert(SC_EQ(so.challenge, g_ch_e), "C12 nonce_process: session stores the challenge");
+        if (tacc == 0) __CPROVER_assert(sval(&so.s_part) == 0, "C12 nonce_process: no tweak => s_part = 0");
         else {
             wide prod = sval(&g_mul_r0);
-            __CPROVER_assert(g_mul_n == 1 && SC_EQ(g_mul_a0, g_chal_e) && sval(&g_mul_b0) == tacc, "C12 nonce_process: tweak term is e * tacc");
-            if (canonQ) __CPROVER_assert(be256(&sess.data[101]) == ((Qy & 1) ? (prod == 0 ? 0 : n - prod) : prod), "C12 nonce_process: s_part = e*tacc, negated exactly when y(Q) is odd");
+            __CPROVER_assert(g_mul_n >= 1 && pair_eq(sval(&g_mul_a0), sval(&g_mul_b0), sval(&g_ch_e), tacc), "C12 nonce_process: tweak term is e * tacc");
+            if (canonQ) __CPROVER_assert(sval(&so.s_part) == ((Qy & 1) ? negn_(prod) : prod), "C12 nonce_process: s_part = e*tacc, negated exactly when y(Q) is odd");
             if (canonQ && (Qy & 1)) REACH("nonce_process tweak term negated");
         }
-        if (use_adaptor && !z1) REACH("nonce_process with adaptor");
-        if (!use_adaptor && tacc == 0 && !z1 && !z2) REACH("nonce_process plain");
+        if (use_adaptor && !R[0].infinity) REACH("nonce_process with adaptor");
+        if (!use_adaptor && tacc == 0 && !R[0].infinity && !R[1].infinity) REACH("nonce_process plain");
     }
 #endif
 }
